@@ -376,7 +376,7 @@ func main() {
 	}
 	var nvals, nboundary, typeMismatch, typeChecked int64
 	var boundaryData []string
-	var zeroWidth, lengthSweep, sigShape, limits map[string]interface{}
+	var zeroWidth, lengthSweep, sigShape, limits, strContent map[string]interface{}
 	var mu sync.Mutex
 	var mismatches []string
 
@@ -411,6 +411,7 @@ func main() {
 			"boundary":                  map[string]interface{}{"documented_cap": sizeCap, "entries": boundaryCounts, "data_executed": nboundary, "data": boundaryData},
 			"zero_width":                zeroWidth,
 			"length_sweep":              lengthSweep,
+			"string_content":            strContent,
 			"signature_shape":           sigShape,
 			"limit":                     limits,
 			"go_type_vs_signature_Type": map[string]interface{}{"compared_m_and_o_free_signatures": typeChecked, "different": typeMismatch, "first": mm},
@@ -447,6 +448,7 @@ func main() {
 	nboundary, boundaryData = familyBoundary()
 	zeroWidth = familyZeroWidth()
 	lengthSweep = familyLengthSweep(run.Thorough())
+	strContent = familyStringContent(run.Thorough())
 	sigShape = familySignatureShape(run.Thorough())
 	limits = familyLimit(run.Thorough())
 
